@@ -84,6 +84,20 @@ static constexpr bool kClass = false;
 using Elem = unsigned char;
 static long valueOf(const Elem &e) { return e; }
 static constexpr bool kClass = false;
+#elif defined(ELEM_POD)
+// a class type that is trivially copyable and trivially destructible but NOT trivially default-constructible
+// (default member initialiser): Array(size) and a growing resize(size) must still run its default constructor.
+// Lifetimes are not observable for it; values are: a default-constructed element reads back as 0, raw storage does not.
+struct Pod {
+    long biased = 7;
+    Pod() = default;
+    Pod(long v) : biased(v + 7) {}       // NOLINT: implicit on purpose
+    bool operator==(const Pod &o) const { return biased == o.biased; }
+};
+static_assert(std::is_trivially_copyable_v<Pod> && std::is_trivially_destructible_v<Pod> && !std::is_trivially_default_constructible_v<Pod>);
+using Elem = Pod;
+static long valueOf(const Elem &e) { return e.biased - 7; }
+static constexpr bool kClass = true;
 #else
 using Elem = verif::Tracked;
 static long valueOf(const Elem &e) { return e.value(); }
@@ -111,7 +125,11 @@ static std::string finish(const std::string &res) {
         return e;
     }
     if (verif::heapLog().foreign) { verif::heapLog().foreign = false; return "!BAD_FREE"; }
+#if defined(ELEM_POD)
+    return res + " | d:?";
+#else
     return res + " | " + (kClass ? d : std::string("d:?"));
+#endif
 }
 
 template<typename A> static std::string listOf(A &a) {
